@@ -99,6 +99,10 @@ func (b *Built) build(s *Spec) (res error) {
 		return errors.Newf(Fmt3(S(0)), S(1), errors.Safe(S(2)))
 	case "assertf":
 		return errors.AssertionFailedf(Fmt3(S(0)), S(1), errors.Safe(S(2)))
+	case "newf0":
+		return errors.Newf("lit " + esc(S(0)))
+	case "assertf0":
+		return errors.AssertionFailedf("lit " + esc(S(0)))
 	case "unimpl":
 		return errors.UnimplementedError(errors.IssueLink{IssueURL: S(1), Detail: S(2)}, S(0))
 	case "unimplf":
@@ -160,6 +164,12 @@ func (b *Built) build(s *Spec) (res error) {
 		return errors.Wrapf(c, Fmt3(S(0)), S(1), errors.Safe(S(2)))
 	case "withmsg":
 		return errors.WithMessage(c, S(0))
+	case "wrapf0":
+		return errors.Wrapf(c, "lit "+esc(S(0)))
+	case "withmsgf0":
+		return errors.WithMessagef(c, "lit "+esc(S(0)))
+	case "safedetailsnofmt":
+		return errors.WithSafeDetails(c, "", S(0), errors.Safe(S(1)))
 	case "withmsgf":
 		return errors.WithMessagef(c, Fmt3(S(0)), S(1), errors.Safe(S(2)))
 	case "stack":
